@@ -1,77 +1,88 @@
 (* The cascade of model/Cascade.v (problem_table_algorithm with the tol*10 activity window) computes, on every row,
-   exactly the heat content of the streams above that temperature; hence the targets equal the exact optimum. *)
+   exactly the heat content above that temperature of the GRID-ALIGNED streams: the streams whose end points have been
+   moved onto the (rounded) grid.  `hot`/`cold` are the streams as the code sees them in the activity test (unrounded
+   bounds), `hotR`/`coldR` their aligned versions, at most `d` away (d = 0 for inputs already on the rounding lattice). *)
 From OP Require Import model.Base model.Cascade proofs.BaseFacts proofs.CascadeSpec.
 From Coq Require Import Lqa Lia.
 Local Open Scope Q_scope.
 Local Arguments Qred : simpl never.
 
+Definition nearv (d : Q) (s s' : view) : Prop :=
+  vcp s == vcp s' /\ - d <= lo s - lo s' <= d /\ - d <= hi s - hi s' <= d.
+
 Section Exact.
 Variable w : Q.
-Hypothesis w_pos : 0 < w.
+Variable d : Q.
+Hypothesis d_nonneg : 0 <= d.
+Hypothesis d_lt_w : d < w.
 
-Lemma active_spans s up low : lo s < hi s -> low + w < up -> no_inner s up low -> active w s up low = spans s up low.
+Lemma active_spans s s' up low : nearv d s s' -> lo s' < hi s' -> low + w + d < up -> no_inner s' up low ->
+  active w s up low = spans s' up low.
 Proof.
-  intros Hs Hg [N1 N2]. unfold active, spans.
+  intros [_ [Nl Nh]] Hs Hg [N1 N2]. unfold active, spans.
   destruct (qltb (low + w) (hi s)) eqn:A1; destruct (qltb (lo s) (up - w)) eqn:A2;
-  destruct (qleb (lo s) low) eqn:S1; destruct (qleb up (hi s)) eqn:S2; simpl; try reflexivity; exfalso;
+  destruct (qleb (lo s') low) eqn:S1; destruct (qleb up (hi s')) eqn:S2; simpl; try reflexivity; exfalso;
   try (apply qltb_true in A1); try (apply qltb_false in A1); try (apply qltb_true in A2); try (apply qltb_false in A2);
   try (apply qleb_true in S1); try (apply qleb_false in S1); try (apply qleb_true in S2); try (apply qleb_false in S2);
   try lra; try (apply N1; split; lra); try (apply N2; split; lra).
 Qed.
 
-Lemma cpsum_spansum ss up low : wfs ss -> low + w < up -> Forall (fun s => no_inner s up low) ss ->
-  cpsum w ss up low == spansum ss up low.
+Lemma cpsum_spansum ss ss' up low : Forall2 (nearv d) ss ss' -> wfs ss' -> low + w + d < up ->
+  Forall (fun s => no_inner s up low) ss' -> cpsum w ss up low == spansum ss' up low.
 Proof.
-  intros W Hg N. induction ss as [|s ss IH]; simpl; [reflexivity|].
+  intros F W Hg N. induction F as [|s s' ss ss' Hn F IH]; simpl; [reflexivity|].
   inversion W as [|? ? [Ws _] W']; subst. inversion N as [|? ? Ns N']; subst. specialize (IH W' N').
-  rewrite (active_spans s up low Ws Hg Ns). destruct (spans s up low); cbv iota; [rewrite Qred_correct|]; lra.
+  rewrite (active_spans s s' up low Hn Ws Hg Ns). destruct Hn as [Ec _].
+  destruct (spans s' up low); cbv iota; [rewrite Qred_correct|]; lra.
 Qed.
 
-Variables hot cold : list view.
-Hypothesis Wh : wfs hot.
-Hypothesis Wc : wfs cold.
+Variables hot cold hotR coldR : list view.
+Hypothesis Fh : Forall2 (nearv d) hot hotR.
+Hypothesis Fc : Forall2 (nearv d) cold coldR.
+Hypothesis Wh : wfs hotR.
+Hypothesis Wc : wfs coldR.
 
 Definition pair_ok (up low : Q) : Prop :=
-  low + w < up /\ Forall (fun s => no_inner s up low) hot /\ Forall (fun s => no_inner s up low) cold.
+  low + w + d < up /\ Forall (fun s => no_inner s up low) hotR /\ Forall (fun s => no_inner s up low) coldR.
 Fixpoint chain (prev : Q) (g : list Q) : Prop :=
   match g with [] => True | t :: g' => pair_ok prev t /\ chain t g' end.
 
-Definition row_exact (r : rrow) : Prop := rch r == heat_above hot (rT r) /\ rcc r == heat_above cold (rT r).
+Definition row_exact (r : rrow) : Prop := rch r == heat_above hotR (rT r) /\ rcc r == heat_above coldR (rT r).
 
 Lemma rows_from_exact g : forall prev ch cc, chain prev g ->
-  ch == heat_above hot prev -> cc == heat_above cold prev ->
+  ch == heat_above hotR prev -> cc == heat_above coldR prev ->
   Forall row_exact (rows_from w hot cold prev ch cc g).
 Proof.
   induction g as [|t g IH]; intros prev ch cc Hc Eh Ec; simpl; [constructor|].
   destruct Hc as [[Hg [Nh Nc]] Hc].
-  assert (Xh : radd ch (rmul (rsub prev t) (cpsum w hot prev t)) == heat_above hot t).
-  { rewrite radd_eq, rmul_eq, rsub_eq, (cpsum_spansum hot prev t Wh Hg Nh).
-    pose proof (heat_above_lin hot prev t t Wh Nh ltac:(lra) ltac:(lra)). lra. }
-  assert (Xc : radd cc (rmul (rsub prev t) (cpsum w cold prev t)) == heat_above cold t).
-  { rewrite radd_eq, rmul_eq, rsub_eq, (cpsum_spansum cold prev t Wc Hg Nc).
-    pose proof (heat_above_lin cold prev t t Wc Nc ltac:(lra) ltac:(lra)). lra. }
+  assert (Xh : radd ch (rmul (rsub prev t) (cpsum w hot prev t)) == heat_above hotR t).
+  { rewrite radd_eq, rmul_eq, rsub_eq, (cpsum_spansum hot hotR prev t Fh Wh Hg Nh).
+    pose proof (heat_above_lin hotR prev t t Wh Nh ltac:(lra) ltac:(lra)). lra. }
+  assert (Xc : radd cc (rmul (rsub prev t) (cpsum w cold prev t)) == heat_above coldR t).
+  { rewrite radd_eq, rmul_eq, rsub_eq, (cpsum_spansum cold coldR prev t Fc Wc Hg Nc).
+    pose proof (heat_above_lin coldR prev t t Wc Nc ltac:(lra) ltac:(lra)). lra. }
   constructor; [split; simpl; assumption|]. apply IH; assumption.
 Qed.
 
-(* Robust: consecutive grid temperatures are further apart than the activity window *)
+(* Robust: consecutive grid temperatures are further apart than the activity window plus the alignment distance *)
 Fixpoint gaps_ok (l : list Q) : Prop :=
-  match l with a :: t => (match t with b :: _ => b + w < a | [] => True end) /\ gaps_ok t | [] => True end.
+  match l with a :: t => (match t with b :: _ => b + w + d < a | [] => True end) /\ gaps_ok t | [] => True end.
 
-Lemma chain_from g : forall rest pre a, g = pre ++ a :: rest -> desc g -> covers g (eps_all hot cold) ->
+Lemma chain_from g : forall rest pre a, g = pre ++ a :: rest -> desc g -> covers g (eps_all hotR coldR) ->
   gaps_ok (a :: rest) -> chain a rest.
 Proof.
   induction rest as [|b post IH]; intros pre a E Hd Hc Hg; simpl; [exact I|].
-  destruct Hg as [Hab Hg]. destruct (covers_split hot cold g Hc) as [Ch Cc]. split.
+  destruct Hg as [Hab Hg]. destruct (covers_split hotR coldR g Hc) as [Ch Cc]. split.
   - split; [exact Hab|]. split; eapply no_inner_consecutive; eauto.
   - apply (IH (pre ++ [a]) b); [rewrite <- app_assoc; exact E|exact Hd|exact Hc|exact Hg].
 Qed.
 
-Theorem raw_rows_exact g : desc g -> covers g (eps_all hot cold) -> gaps_ok g ->
+Theorem raw_rows_exact g : desc g -> covers g (eps_all hotR coldR) -> gaps_ok g ->
   Forall row_exact (raw_rows w hot cold g).
 Proof.
   intros Hd Hc Hg. destruct g as [|t0 g']; simpl; [constructor|].
-  assert (T0 : heat_above hot t0 == 0 /\ heat_above cold t0 == 0).
-  { destruct (covers_split hot cold _ Hc) as [Ch Cc].
+  assert (T0 : heat_above hotR t0 == 0 /\ heat_above coldR t0 == 0).
+  { destruct (covers_split hotR coldR _ Hc) as [Ch Cc].
     assert (Htop : forall ss, covers (t0 :: g') (endpoints ss) -> forall s, In s ss -> hi s <= t0).
     { intros ss C s Hs. destruct (C (hi s) (proj2 (endpoints_in ss s Hs))) as [z [Hz Ez]].
       pose proof (desc_le_head t0 g' z Hd Hz). lra. }
@@ -85,3 +96,7 @@ Proof. induction g as [|t g IH]; intros; simpl; [reflexivity|]. f_equal. apply I
 Lemma raw_rows_T g : map rT (raw_rows w hot cold g) = g.
 Proof. destruct g as [|t0 g']; simpl; [reflexivity|]. f_equal. apply rows_from_T. Qed.
 End Exact.
+
+(* every list is aligned with itself at distance 0 *)
+Lemma nearv_refl ss : Forall2 (nearv 0) ss ss.
+Proof. induction ss as [|s ss IH]; constructor; [|exact IH]. unfold nearv. repeat split; lra. Qed.
